@@ -259,6 +259,54 @@ def preprocess_order(rep: C.Report) -> None:
         ob.detail += f"{type(e).__name__}: {e}"
 
 
+def finalize_fixpoint(rep: C.Report) -> None:
+    """Ob7: _finalize_expand substitutes placeholders inside a loop that only ends when a pass changes nothing (unexpanded
+    constructs put their arguments back verbatim, so each nesting level needs one more pass).  AST/E3 fact: the substitution call
+    sits in a `while` whose every exit is guarded by a before/after comparison; otherwise nested documents are replayed.
+    (CrossHair cannot run _finalize_expand on symbolic text: ord() of a symbolic match raises an internal error.)"""
+    ob = rep.add(C.Ob("Ob7 finalisation iterates to a fixed point (no placeholder survives nested unexpanded constructs)", "AST fact + replay", ["core.py:Wtp._finalize_expand"], "nesting depth unbounded (loop structure)"))
+    try:
+        tree = ast.parse(open(os.path.join(C.SRC, "core.py")).read())
+        fns = [f for q, f in AP.functions(tree) if q[-1] == "_finalize_expand"]
+        if len(fns) != 1:
+            ob.verdict, ob.detail = C.NOT_ENCODABLE, "_finalize_expand not found"
+            return
+        fn = fns[0]
+        ok = False
+        for loop in [n for n in ast.walk(fn) if isinstance(n, ast.While)]:
+            has_sub = any(isinstance(c, ast.Call) and isinstance(c.func, ast.Attribute) and c.func.attr == "sub" for c in ast.walk(loop))
+            if not has_sub:
+                continue
+            exits = [n for n in ast.walk(loop) if isinstance(n, (ast.Break, ast.Return))]
+            # every exit must sit under an `if <a> == <b>` (before/after comparison); an unconditional `while True`
+            guarded = True
+            for ex in exits:
+                parent_if = [i for i in ast.walk(loop) if isinstance(i, ast.If) and any(x is ex for x in ast.walk(i))]
+                if not any(isinstance(i.test, ast.Compare) and isinstance(i.test.ops[0], ast.Eq) for i in parent_if):
+                    guarded = False
+            is_forever = isinstance(loop.test, ast.Constant) and loop.test.value is True
+            cmp_test = isinstance(loop.test, ast.Compare) and isinstance(loop.test.ops[0], (ast.NotEq, ast.IsNot))
+            if (is_forever and exits and guarded) or cmp_test:
+                ok = True
+        ob.conditions = ob.queries = ob.paths = 1
+        if ok:
+            ob.verdict = C.DISCHARGED
+            ob.confirmed_conditions = 1
+            return
+        gen0, _ = xh.prepare(H)
+        mod = xh.load(gen0)
+        for depth in range(1, 8):
+            for c in ("''", "{{a}}", "=x"):
+                sig, bad, what = mod.replay_finalize_depth(c, depth)
+                if bad:
+                    v = rep.violation(sig, what, {"depth": depth, "c": c})
+                    ob.verdict = C.VIOLATED if v.known is None else C.KNOWN
+                    return
+        ob.detail = "no fixed-point loop around the placeholder substitution, but nested documents up to depth 7 finalise cleanly -> inconclusive"
+    except Exception as e:  # noqa: BLE001
+        ob.detail += f"{type(e).__name__}: {e}"
+
+
 def run(rep: C.Report) -> None:
     quick = C.tier() == "quick"
     rep.explanation = (
@@ -286,6 +334,7 @@ def run(rep: C.Report) -> None:
     )
     n_cookie_passthrough(rep)
     preprocess_order(rep)
+    finalize_fixpoint(rep)
 
 
 def replay(r: dict) -> int:
